@@ -7,6 +7,7 @@ use crate::halloc::{self, EV_ALLOC, RES_OK};
 use crate::ledger::Tracked;
 use crate::report::Report;
 use allocator_api2::alloc::Allocator;
+use bumpalo::Bump;
 use std::alloc::Layout;
 use std::mem::{align_of, size_of, MaybeUninit};
 use std::panic::{catch_unwind, AssertUnwindSafe};
@@ -244,7 +245,7 @@ impl<const M: usize> Sim<M> {
             _ => pat_bytes(id, size),
         };
         self.begin();
-        let b = &*self.bump;
+        let b: &Bump<M> = &**self.bump;
         let r = catch_unwind(AssertUnwindSafe(|| -> Option<*mut T> {
             match (kind, fallible) {
                 (0, false) => Some(b.alloc_slice_copy(&src).as_mut_ptr()),
@@ -333,7 +334,7 @@ impl<const M: usize> Sim<M> {
         }
         let cap_before = self.bump.chunk_capacity();
         self.begin();
-        let b = &*self.bump;
+        let b: &Bump<M> = &**self.bump;
         let r = catch_unwind(AssertUnwindSafe(|| {
             if fallible {
                 b.try_alloc_str(&s).ok().map(|x| x.as_mut_ptr())
@@ -384,7 +385,7 @@ impl<const M: usize> Sim<M> {
         let mut err_id: Option<u32> = None;
         let ledger_mark = crate::ledger::log_len();
         self.begin();
-        let b = &*self.bump;
+        let b: &Bump<M> = &**self.bump;
         let f = || -> Result<T, Tracked> {
             calls += 1;
             match inner {
@@ -474,7 +475,7 @@ impl<const M: usize> Sim<M> {
                     rep.violate("C11", "C11/error-not-delivered-exactly-once", format!("drops {:?}", after));
                 }
                 rep.bump("c11.errors_delivered");
-                do_probe = probe && inner != 1;
+                do_probe = probe && inner == 0;
                 Outcome::Err
             }
             Ok((_, _, _)) => {
@@ -496,6 +497,12 @@ impl<const M: usize> Sim<M> {
             let save = self.next_id;
             self.next_id = kid;
             self.register(rep, p, n, 8, pat_bytes(kid, n), Some((n, 8)), "alloc_layout-inside-initialiser");
+            if out == Outcome::Err {
+                if let Some(l) = self.live.get_mut(&(p as usize)) {
+                    l.tag = 1;
+                    rep.bump("c11.kept_blocks_tracked");
+                }
+            }
             self.next_id = save.max(kid + 1);
         }
         self.next_id = self.next_id.max(inner_id + 1);
@@ -536,10 +543,11 @@ impl<const M: usize> Sim<M> {
 
     /// alloc_slice_try_fill_with / alloc_slice_try_fill_iter failing at index `fail_at` (None = succeed)
     pub fn op_slice_try_fill(&mut self, rep: &mut Report, ty: usize, len: usize, fail_at: Option<usize>, iter: bool, probe: bool) -> Outcome {
-        with_type!(ty, T, { self.slice_try_fill_t::<T>(rep, len, fail_at, iter, probe) })
+        let inner = self.slice_inner;
+        with_type!(ty, T, { self.slice_try_fill_t::<T>(rep, len, fail_at, iter, probe, inner) })
     }
 
-    fn slice_try_fill_t<T: Copy + 'static>(&mut self, rep: &mut Report, len: usize, fail_at: Option<usize>, iter: bool, probe: bool) -> Outcome {
+    fn slice_try_fill_t<T: Copy + 'static>(&mut self, rep: &mut Report, len: usize, fail_at: Option<usize>, iter: bool, probe: bool, inner: u8) -> Outcome {
         let esz = size_of::<T>();
         let align = align_of::<T>();
         let size = esz * len;
@@ -550,11 +558,25 @@ impl<const M: usize> Sim<M> {
         let cap_before = self.bump.chunk_capacity();
         let mut err_id = None;
         let ledger_mark = crate::ledger::log_len();
+        let mut kept: Vec<(*mut u8, u32)> = Vec::with_capacity(4);
+        let kid0 = self.next_id + 1;
         self.begin();
-        let b = &*self.bump;
+        let b: &Bump<M> = &**self.bump;
         let r = catch_unwind(AssertUnwindSafe(|| -> Result<*mut T, Tracked> {
             let mut f = |i: usize| -> Result<T, Tracked> {
                 order.push(i);
+                if inner == 1 && kept.len() < 4 {
+                    if let Ok(p) = b.try_alloc_layout(Layout::from_size_align(40, 8).unwrap()) {
+                        let kid = kid0 + kept.len() as u32;
+                        unsafe { fill(p.as_ptr(), &pat_bytes(kid, 40)) };
+                        kept.push((p.as_ptr(), kid));
+                    }
+                } else if inner == 2 {
+                    let l = Layout::from_size_align(24, 8).unwrap();
+                    if let Ok(p) = b.allocate(l) {
+                        unsafe { b.deallocate(p.cast(), l) };
+                    }
+                }
                 if Some(i) == fail_at {
                     let t = Tracked::new(9);
                     err_id = Some(t.id);
@@ -614,6 +636,25 @@ impl<const M: usize> Sim<M> {
                 Outcome::Panic
             }
         };
+        if !kept.is_empty() {
+            // the slice itself took id `id`; kept blocks carry kid0..
+            let save = self.next_id.max(kid0 + kept.len() as u32);
+            for (p, kid) in kept.iter() {
+                self.next_id = *kid;
+                if self.register(rep, *p, 40, 8, pat_bytes(*kid, 40), Some((40, 8)), "alloc_layout-inside-slice-initialiser").is_some() && out == Outcome::Err {
+                    if let Some(l) = self.live.get_mut(&(*p as usize)) {
+                        l.tag = 1;
+                        rep.bump("c11.kept_blocks_tracked");
+                    }
+                }
+            }
+            self.next_id = save;
+            do_probe = false; // the initialiser allocated: the reuse clause does not apply
+        }
+        if inner != 0 {
+            // the reuse clause is stated only for initialisers that allocated nothing
+            do_probe = false;
+        }
         self.after_op(rep, OpKind::Alloc, &ev);
         self.tr(&[15, out as u64]);
         if do_probe && size > 0 {
@@ -655,7 +696,7 @@ impl<const M: usize> Sim<M> {
         };
         let cap_before = self.bump.chunk_capacity();
         self.begin();
-        let b = &*self.bump;
+        let b: &Bump<M> = &**self.bump;
         let r = catch_unwind(AssertUnwindSafe(|| if zeroed { b.allocate_zeroed(layout) } else { b.allocate(layout) }));
         let ev = self.end(rep, OpKind::Alloc);
         let out = match r {
@@ -724,7 +765,7 @@ impl<const M: usize> Sim<M> {
         self.cur = format!("Allocator::deallocate(id {},{},{})", lv.id, size, align);
         let layout = Layout::from_size_align(size, align).unwrap();
         self.begin();
-        let b = &*self.bump;
+        let b: &Bump<M> = &**self.bump;
         let r = catch_unwind(AssertUnwindSafe(|| unsafe { b.deallocate(NonNull::new_unchecked(lv.ptr), layout) }));
         let ev = self.end(rep, OpKind::Dealloc);
         if r.is_err() {
@@ -758,7 +799,7 @@ impl<const M: usize> Sim<M> {
         let was_last = self.last_obs.as_ref().and_then(|o| o.chunks.first().map(|c| c.0 == addr)).unwrap_or(false);
         let cap_before = self.bump.chunk_capacity();
         self.begin();
-        let b = &*self.bump;
+        let b: &Bump<M> = &**self.bump;
         let r = catch_unwind(AssertUnwindSafe(|| unsafe {
             let p = NonNull::new_unchecked(lv.ptr);
             if grow {
@@ -1040,7 +1081,7 @@ impl<const M: usize> Sim<M> {
         let cap_before = self.bump.chunk_capacity();
         let before = self.observe();
         self.begin();
-        let b = &*self.bump;
+        let b: &Bump<M> = &**self.bump;
         // returns (ptr, claimed bytes, elem align)
         let r = catch_unwind(AssertUnwindSafe(|| -> Option<(usize, usize, usize)> {
             match (which % 8, fallible) {
